@@ -1,3 +1,3 @@
 SPECIFICATION Spec
-INVARIANTS Emit SelectIsFirst UntaggedPresentation TagsPresentedSorted IntervalIsFirstRetention
+INVARIANTS Emit SelectIsFirst AbsentIsZero UntaggedPresentation TagsPresentedSorted IntervalIsFirstRetention
 CHECK_DEADLOCK FALSE
